@@ -25,11 +25,11 @@ fn main() {
         ptx.send(("recv_timeout(200ms)", t0.elapsed(), format!("{:?}", r))).ok();
     });
     match prx.recv_timeout(Duration::from_millis(1000)) {
-        Ok((_, el, r)) => if el > Duration::from_millis(150) || r != "Ok(None)" { bad.push(format!("try_recv next to a thread parked in recv(): took {:?}, returned {}", el, r)) },
+        Ok((_, el, r)) => if el > Duration::from_millis(500) || r != "Ok(None)" { bad.push(format!("try_recv next to a thread parked in recv(): took {:?}, returned {}", el, r)) },
         Err(_) => bad.push("try_recv next to a thread parked in recv() did not return within 1 s".to_string()),
     }
     match prx.recv_timeout(Duration::from_millis(1500)) {
-        Ok((_, el, r)) => if el < Duration::from_millis(150) || el > Duration::from_millis(700) || r != "Ok(None)" { bad.push(format!("recv_timeout(200ms) next to a thread parked in recv(): took {:?}, returned {}", el, r)) },
+        Ok((_, el, r)) => if el < Duration::from_millis(150) || el > Duration::from_millis(1200) || r != "Ok(None)" { bad.push(format!("recv_timeout(200ms) next to a thread parked in recv(): took {:?}, returned {}", el, r)) },
         Err(_) => bad.push("recv_timeout(200ms) next to a thread parked in recv() did not return within 1.5 s".to_string()),
     }
     // a request arriving now is delivered exactly once (to the parked thread: nobody else is receiving)
